@@ -353,6 +353,10 @@ def judge(case, impl_res, ans):
         if rl['n_times'] != len(fr['spike_times']) or rl['n_channels'] != len(fr['channel_mapping']) or not rl['has_templates']:
             return 'CORR: loader model on the projected output: %d times, %d channels, templates %s; real reload %d, %d' % (
                 rl['n_times'], rl['n_channels'], rl['has_templates'], len(fr['spike_times']), len(fr['channel_mapping']))
+        if not case.get('probes') and (rl['channel_map'] != fr['channel_mapping'] or rl['channel_map_shape'] != [len(fr['channel_mapping'])]):
+            # theorem convert_output_loads: the loader model shows vec (C14.exportRawInd channelMap channelProbes)
+            return 'CORR: channel map of the reloaded real output %s differs from the loader model on the projected model output %s (shape %s)' % (
+                fr['channel_mapping'], rl['channel_map'], rl['channel_map_shape'])
     # the file table of Model/C13.lean (theorem export_table_written)
     for name, rows in mod['table']:
         if have.get(name) != rows:
